@@ -7,7 +7,7 @@ id=$1; wt=/tmp/mut/$id; out=$wt/OUT; dest=/verif/seeded/$id
 export CARGO_NET_OFFLINE=true
 [ -f $out/patch.diff ] || { echo "$id: no patch.diff"; exit 2; }
 cp -r $out /tmp/mut/${id}_OUT
-cd $wt && git checkout -q -- . && git clean -fdq -e OUT -e target
+cd $wt && git reset -q && git checkout -q -- . && git clean -fdq -e OUT -e target
 # rebase the scratch worktree onto /repo's current HEAD (fix commits may have landed since)
 git checkout -q --detach $(git -C /repo rev-parse HEAD)
 demo_cmd=$(python3 -c "import json;print(json.load(open('$out/meta.json'))['demo_cmd'])" | sed -e "s#cd $wt *&& *##" -e 's/-j 4/-j 8/')
